@@ -248,7 +248,8 @@ def merge_all_pages(chk, prefix="C01"):
                   desc="on return, operations was updated once with {op.operation_id: op} over initial operations ++ every page of the chain (later occurrences win, S: dict), and the chain ended with a falsy marker",
                   sample="fetch_paginated_operations exit: update source == init ++ pages, marker falsy")
     if not normal:
-        chk.fault("fetch_paginated_operations: no normal exit path")
+        # cover obligation: the exit contracts above are vacuous if the function never returns
+        chk.prove(f"{prefix}.state.merge_all_pages.all_pages", [], F, desc="reachability: fetch_paginated_operations returns normally on some path")
     return eng
 
 
